@@ -65,7 +65,7 @@ CFG = {
             "backing arrays - one vertex / all / zero signs / reslice +-1 / other type over the same runs / non-finite appears and disappears / "
             "vertices trade places - Encode+Decode again, 2..5 steps, document handed to Decode in one reused buffer); +-0 twins (vertices equal "
             "under == but not bitwise, in one run / across runs / across members); 2^16+1 members at every nesting level of every type, later "
-            "members with 65537-vertex runs, random 2^13+1..2^17+1 (rt lines); distinct = distinct input line; non-trivial = verdict class not 'skipped'",
+            "members with 65537-vertex runs, random 2^13+1..2^17+1 (rt lines); uns lines (unsupported dynamic types that are near misses of supported ones: non-nil pointer to / typed nil pointer of / named struct embedding / struct holding a pointer to each of the six value types and GeometryCollection, as a collection member, nil *Bounds; tog and enc; an answer other than an error is SPEC); distinct = distinct input line; non-trivial = verdict class not 'skipped'",
     "timeout": {"quick": 600, "thorough": 3000},
     "explanation": "SPEC verdicts: the bytes Encode returns are parsed by the total RFC 8259 parser of Text.lean (the one the text-level theorems are about) (numbers converted by exact "
                    "round-to-nearest-even) and must be read back to the input geometry bit-for-bit by the independent RFC 7946 reader "
